@@ -991,9 +991,9 @@ func (d Driver) Run(c *core.Ctx) error {
 		run(tlc.Opts{Module: "PDFDoc", Config: genCfg(3, "all2", "small", 0, false)})
 	}
 	// metadata sweep: classes of text x fields x Lang x SetInfo before/after drawing
-	run(tlc.Opts{Module: "PDFDoc", Config: genCfg(1, "info", "small", 0, false)})
+	run(tlc.Opts{Module: "PDFDoc", Config: genCfg(1, "info", "small", c.Pick(0, 1), false)}) // NRand # 0: with and without compression
 	// random programs over the full alphabet with random metadata profiles
-	run(tlc.Opts{Module: "PDFDoc", Config: genCfg(c.Pick(8, 12), "random", "full", c.Pick(250, 3000), false), Seed: c.Seed})
+	run(tlc.Opts{Module: "PDFDoc", Config: genCfg(c.Pick(8, 12), "random", "full", c.Pick(200, 3000), false), Seed: c.Seed})
 	if c.Thorough() {
 		run(tlc.Opts{Module: "PDFDoc", Config: genCfg(5, "random", "small", 1500, false), Seed: c.Seed + 1000})
 	}
